@@ -136,31 +136,70 @@ func PayloadGen(d *m.Design, meth *m.Method) *rapid.Generator[value.V] {
 			if !present {
 				continue
 			}
+			if ck := credKind(meth, f.Name); ck != "" {
+				out.O = append(out.O, value.Field{N: f.Name, V: value.Str(credValue(t, ck))})
+				continue
+			}
 			out.O = append(out.O, value.Field{N: f.Name, V: genValue(t, d, f.Attr, loc, 3, nil)})
 		}
-		// open finding: a tagged response dereferences unset header attributes
-		if meth.HTTP != nil && kf.Open("C03-tagged-response-optional-header-nil-deref") {
-			for _, r := range meth.HTTP.Responses {
-				if r.TagName == "" {
-					continue
+		// open finding: Basic credentials are only sent when both are set
+		if kf.Open("C06-basic-partial-credentials-dropped") {
+			var user, pass string
+			for _, c := range meth.Creds {
+				switch c.Kind {
+				case "username":
+					user = c.Attr
+				case "password":
+					pass = c.Attr
 				}
-				if tv, ok := out.Get(r.TagName); !ok || tv.S != r.TagValue {
-					continue
+			}
+			if user != "" && pass != "" {
+				_, hu := out.Get(user)
+				_, hp := out.Get(pass)
+				if hu && !hp {
+					out.O = append(out.O, value.Field{N: pass, V: value.Str(credValue(t, "password"))})
 				}
-				for _, hm := range r.Headers {
-					if _, ok := out.Get(hm.Attr); ok {
-						continue
-					}
-					if f := d.FieldByName(meth.Result, hm.Attr); f != nil {
-						loc := Loc{Where: "header", MustSetDefaults: true, NonEmptyArray: true, NoEmpty: kf.Open("C03-empty-string-is-absent"), SingleElemArray: kf.Open("C03-response-header-array-not-split")}
-						out.O = append(out.O, value.Field{N: f.Name, V: genValue(t, d, f.Attr, loc, 3, nil)})
-					}
+				if hp && !hu {
+					out.O = append(out.O, value.Field{N: user, V: value.Str(credValue(t, "username"))})
 				}
-				break
 			}
 		}
 		return out
 	})
+}
+
+func credKind(meth *m.Method, attr string) string {
+	for _, c := range meth.Creds {
+		if c.Attr == attr {
+			return c.Kind
+		}
+	}
+	return ""
+}
+
+// credValue draws a credential string: a single token of printable ASCII
+// (the HTTP Authorization syntax has no blanks inside credentials); user
+// names have no ':' (Basic auth separates on the first one); bearer tokens
+// sometimes carry the "Bearer " scheme prefix.
+func credValue(t *rapid.T, kind string) string {
+	alphabet := []string{"a", "Z", "0", "9", "-", "_", ".", "~", "+", "/", "=", "%", "%41", "!", "*", "'", "(", ")", "$", "&", "@", "?", "#"}
+	n := rapid.IntRange(1, 12).Draw(t, "credlen")
+	var b []byte
+	for i := 0; i < n; i++ {
+		b = append(b, rapid.SampledFrom(alphabet).Draw(t, "credtok")...)
+	}
+	s := string(b)
+	switch kind {
+	case "password":
+		if rapid.IntRange(0, 3).Draw(t, "passcolon") == 0 {
+			s += ":x:"
+		}
+	case "token", "accesstoken":
+		if rapid.IntRange(0, 3).Draw(t, "bearerprefix") == 0 {
+			return "Bearer " + s
+		}
+	}
+	return s
 }
 
 // MinLenCollection reports whether the attribute is an array or map with MinLength >= 1.
